@@ -5,6 +5,11 @@ tie    : random histories over 2-4 real models executed in-process; sha256 diges
          every output are logged after each op; the Lean model (Model/Rng.lean, run in the free
          term algebra by Driver/Rng.lean) predicts which of them must coincide and which must be
          different; the two equality patterns are compared.
+tv     : (translator tie, tools/gen_rngscope.py -> Gen/RngScope.lean, bridged to the hand model in Props/C15c) the
+         class table generated from the class statements is compared with introspection of the imported classes
+         (effective `sample` owner, @random_state, effective `set_random_state` owner), and every history of the tie
+         is also executed by the step function generated from utils.set_random_state / random_state /
+         validate_random_state / the set_random_state methods (`rng genrun`) and compared with the real log.
 search : the property's own statement as an oracle on the real code (no Lean), including result ownership:
          two calls never return the same object / shared memory, and after the caller overwrites every result
          in place the same (size, seed) / the same seeded call sequence still gives the first result bit for
@@ -34,7 +39,8 @@ RULE = ('random histories (quick: length <= 40, thorough: <= 90) over 2-4 models
         'draws), set_random_state(None|int|RandomState), caller draws from its RandomState, np.random.seed, dataset '
         'generators; random prior global state. A case is one history; distinct by its op list; non-trivial when it '
         'contains >= 2 sample calls on a seeded model')
-PARTIAL = ['Props/C15b: the wrapper clause is proved iff the sampler is decorated (true for the repaired table, refuted for the as-found one), every history clause restated for all classes incl. the wrapper, and dataset_rows: every generator returns exactly `size` rows in the shape model Model/DatasetShape, tied every run by corr:dataset-shape (rows, columns, ordered numpy draw calls)',
+PARTIAL = ['Props/C15c (translator tie): translated = utils.set_random_state, utils.random_state, utils.validate_random_state, the set_random_state methods of Univariate/Bivariate/Multivariate and the sampler class table (effective sample owner, decorators, setter owner, delegation, constructor); NOT translated (hand model + correspondence only): the sampler bodies, the scopes of copulas/datasets.py, np.random.seed and caller-owned RandomState objects',
+           'Props/C15b: the wrapper clause is proved iff the sampler is decorated (true for the repaired table, refuted for the as-found one), every history clause restated for all classes incl. the wrapper, and dataset_rows: every generator returns exactly `size` rows in the shape model Model/DatasetShape, tied every run by corr:dataset-shape (rows, columns, ordered numpy draw calls)',
            'dataset_rows_partial: numpy size= semantics / pandas constructors not modelled; "exactly size rows" checked '
            'on the real code only',
            'univariate_wrapper_partial: for Univariate (as found) the clauses "function of the seed", "global untouched" '
